@@ -109,6 +109,33 @@ pub fn gen(rng: &mut Rng, n: usize, sink: &mut Sink, focus: &str) {
                 user(*rng.pick(&hs))
             }
         };
+        // native managers: most of the time the token is issued straight away (service call, issue, callback),
+        // so that histories of managers WITH a recorded token are as frequent as those without
+        if ty == 0 && rng.chance(2, 3) {
+            let mut m = vec![1u8];
+            m.extend(user(2));
+            let out = sink.exec(&format!(
+                "tx {} {} deployInterchainToken 50000000000000000 - {}",
+                hex::encode(&service),
+                hex::encode(&tm),
+                args(&[m, b"My Token!".to_vec(), b"mtk".to_vec(), vec![18]])
+            ));
+            if out.starts_with("ok") && out.contains("pend=") && !out.ends_with("pend=-") {
+                let id = next_pend;
+                next_pend += 1;
+                let newtok = format!("MTK-{:06x}", rng.below(0xffffff));
+                let o2 = sink.exec(&format!("deliver {} ok {}", id, hex::encode(newtok.as_bytes())));
+                if o2.starts_with("ok") {
+                    sink.exec(&format!("roles {} {} ESDTRoleLocalMint,ESDTRoleLocalBurn", hex::encode(&tm), newtok));
+                    tokname = newtok;
+                }
+                let o3 = sink.exec(&format!("cb {}", id));
+                if o2.starts_with("ok") && o3.starts_with("ok") {
+                    issued = true;
+                }
+                refresh(sink, &mut roles);
+            }
+        }
         let steps = rng.range(15, 50);
         for _ in 0..steps {
             let anyone = user(rng.below(6) as u8);
@@ -243,6 +270,20 @@ pub fn gen(rng: &mut Rng, n: usize, sink: &mut Sink, focus: &str) {
                         let name = rng.pick(&[b"My Token!".to_vec(), b"ab".to_vec(), b"Tok".to_vec(), vec![], b"ABCDEFGHIJKLMNOPQRSTUVWXYZ0123".to_vec()]).clone();
                         let sym = rng.pick(&[b"mtk".to_vec(), b"x".to_vec(), b"T-1".to_vec(), vec![], b"long-symbol-name".to_vec()]).clone();
                         let egld = *rng.pick(&[0u64, 50000000000000000, 50000000000000000, 50000000000000000, 1]);
+                        // callers: the service, a current minter (MINTER bit 1), or anyone
+                        let caller_service = match rng.below(3) {
+                            0 => holder(rng, &roles, 1),
+                            _ => caller_service.clone(),
+                        };
+                        // once the token is recorded: a well-formed second deployment by a minter naming a new minter
+                        let redeploy = ty == 0 && issued && rng.chance(1, 2);
+                        let (caller_service, minter, name, sym, egld) = if redeploy {
+                            let mut v = vec![1u8];
+                            v.extend(user(rng.below(6) as u8));
+                            (holder(rng, &roles, 1), v, b"My Token!".to_vec(), b"mtk".to_vec(), 50000000000000000u64)
+                        } else {
+                            (caller_service, minter, name, sym, egld)
+                        };
                         let out = sink.exec(&format!(
                             "tx {} {} deployInterchainToken {} - {}",
                             hex::encode(&caller_service),
@@ -253,6 +294,8 @@ pub fn gen(rng: &mut Rng, n: usize, sink: &mut Sink, focus: &str) {
                         if out.starts_with("ok") && out.contains("pend=") && !out.ends_with("pend=-") {
                             pending_issue = Some((next_pend, false));
                             next_pend += 1;
+                        }
+                        if out.starts_with("ok") {
                             refresh(sink, &mut roles);
                         }
                     }
